@@ -374,6 +374,7 @@ def run(ctx):
     if not ctx.quick():
         real_processes(ctx)
     real_hang_during_boot(ctx)
+    real_idle_with_keepalive(ctx)
 
 
 def report(ctx, failures):
@@ -483,6 +484,59 @@ def real_hang_during_boot(ctx):
         ctx.violation("real processes: " + f, {"kind": "real-hang-boot", "note": f})
 
 
+def real_idle_with_keepalive(ctx):
+    """quick and thorough tier: "a worker that is idle ... is never killed for inactivity, for any worker class and any timeout
+    value" with an idle KEEP-ALIVE connection parked in the worker and keepalive > timeout (a load balancer's 75 s against a
+    timeout of 30 s, scaled down): one request, an idle period of 2.2 timeouts on the same connection, a second request - same
+    worker, no WORKER TIMEOUT.  Real processes: the workers' own main loops and their waits."""
+    import time
+    import lib_battery as B
+    import lib_gthread_real as G
+    fails = []
+    classes = ("gthread", "gevent") if ctx.quick() else ("gthread", "gevent", "eventlet")
+    timeout = 2
+
+    def one(cls):
+        srv = B.BatteryServer(cls)
+        srv.settings.update({"timeout": timeout, "keepalive": 9})
+        srv.write_conf()
+        try:
+            srv.start()
+            c = srv.conn(timeout=10)
+            c.sendall(b"GET /small HTTP/1.1\r\nHost: x\r\n\r\n")
+            st, hd, body, complete, err = G.read_response(c, 8)
+            pid1 = body.decode().split("pid=")[-1] if st == 200 else None
+            time.sleep(timeout * 2.2)
+            try:
+                c.sendall(b"GET /small HTTP/1.1\r\nHost: x\r\n\r\n")
+                st2, hd2, body2, complete2, err2 = G.read_response(c, 8)
+            except OSError as e:
+                st2, body2, err2 = None, b"", type(e).__name__
+            c.close()
+            pid2 = body2.decode().split("pid=")[-1] if st2 == 200 else None
+            log = srv.read_log()
+            ctx.count_case(("real-idle-keepalive", cls), True)
+            ctx.hist("real_idle_keepalive", "%s: %s" % (cls, "same worker" if pid1 and pid1 == pid2 else "NOT the same worker"))
+            if "WORKER TIMEOUT" in log:
+                fails.append("%s timeout=%d keepalive=9: an idle worker holding an idle keep-alive connection was killed for inactivity: %s"
+                             % (cls, timeout, [l for l in log.splitlines() if "WORKER TIMEOUT" in l][:1]))
+            elif st != 200 or st2 != 200 or pid1 != pid2:
+                fails.append("%s timeout=%d keepalive=9: the second request on the kept-alive connection, %.1f s later, was not served by the same "
+                             "worker (first: %r pid %s, second: %r pid %s %s)" % (cls, timeout, timeout * 2.2, st, pid1, st2, pid2, err2 or ""))
+        except Exception as e:
+            ctx.broken.append("real idle-with-keepalive scenario (%s) could not be carried out: %s: %s" % (cls, type(e).__name__, e))
+        finally:
+            srv.cleanup()
+    import threading
+    ths = [threading.Thread(target=one, args=(c,)) for c in classes]
+    for t in ths:
+        t.start()
+    for t in ths:
+        t.join()
+    for f in fails:
+        ctx.violation("real processes: " + f, {"kind": "real-idle-keepalive", "note": f})
+
+
 def real_processes(ctx):
     """thorough tier, supporting exploration: real master + workers with short timeouts.  Idle healthy workers must
     survive 3 timeouts; a worker stopped with SIGSTOP, one blocked in the application (sync), must be killed and
@@ -542,7 +596,7 @@ def real_processes(ctx):
 
 
 def replay(rep):
-    if rep.get("kind") == "real-hang-boot":
+    if rep.get("kind") in ("real-hang-boot", "real-idle-keepalive"):
         class C:                                   # a minimal stand-in for the context: collect violations
             def __init__(self):
                 self.v, self.broken = [], []
@@ -551,7 +605,7 @@ def replay(rep):
             def hist(self, *a, **k): pass
             def violation(self, what, rep, key=None): self.v.append(what)
         c = C()
-        real_hang_during_boot(c)
+        (real_hang_during_boot if rep["kind"] == "real-hang-boot" else real_idle_with_keepalive)(c)
         print("failures:", c.v, c.broken)
         return 1 if c.v else 0
     if rep.get("kind") == "real-process":
